@@ -54,6 +54,7 @@ def r81(ctx, rep):
     exc = ctx.facts.exc
     bases = exc.bases
     m = ctx.func(T.MINIMIZE)
+    exc.check(m.qual)
     raised = exc.raises[m.qual]
     # the analysis must at least see the internal protocol being raised
     n_sites = 0
@@ -82,6 +83,7 @@ def r81(ctx, rep):
                         witness=exc.fmt_witness(w))
     for q in PUBLIC_SOLVERS:
         f = ctx.func(q)
+        exc.check(q)
         r = exc.raises[q]
         for cls in ("ZeroDivisionError", "LinAlgError"):
             hits = {c: w for c, w in r.items() if is_subclass(c, cls, bases)}
